@@ -17,6 +17,9 @@ abstract cases lead to which events/returns), never text.
 from .facts import strip, kids, canon, eval_nodes, const_val, BrokenAnalysis
 from . import modref as MR
 
+# loop bound used by the rules (each block at most BOUND+1 visits per path); the thorough tier raises it
+BOUND = 1
+
 LT, EQ, GT = "LT", "EQ", "GT"
 ALL = frozenset((LT, EQ, GT))
 OPSETS = {
